@@ -64,7 +64,7 @@ Theorem C02_built_record_is_truthful :
     exists d0, new_digest uni_lower uni_upper (o_alg o) (o_enc o) = Some d0 /\
       m_get field_table uni_lower n_content_length (r_fields r) = itoa (Z.of_nat (length (raw_bytes (r_block r)))) /\
       m_get field_table uni_lower n_block_digest (r_fields r) = format H (feed d0 (raw_bytes (r_block r))) /\
-      ((bk (r_block r) = BHttpReq \/ bk (r_block r) = BHttpResp) -> (rt0 =? 32) = false ->
+      ((bk (r_block r) = BHttpReq \/ bk (r_block r) = BHttpResp) -> (r_type r =? 32) = false ->
        m_has field_table uni_lower n_segment_number hs = false ->
        m_get field_table uni_lower n_payload_digest (r_fields r) = format H (feed d0 (bb (r_block r)))).
 Proof. intros. eapply build_truthful; eassumption. Qed.
